@@ -409,6 +409,26 @@ func c18Text(r *mon.Run, text string, probes []string, witness []string) (accept
 		example = ""
 	}
 
+	// the example belongs to the caller: overwriting it must not change what the object answers next
+	if !light && eerr == nil {
+		var s1, s2 string
+		var e2err error
+		if p := mon.Guard(func() {
+			one := regex.New("r", text)
+			e1, _ := one.Example()
+			s1 = string(e1)
+			for i := range e1 {
+				e1[i] = '*'
+			}
+			e2, err := one.Example()
+			s2, e2err = string(e2), err
+		}); p != nil {
+			c18Violate(r, "panic", "RSchema.Example(second)/"+p.Site, cs, "the second Example() of %s panicked: %s", q, p.Value)
+		} else if e2err != nil || s1 != s2 {
+			c18Violate(r, "example-stable", text, cs, "Example() of %s returned %q; after the caller overwrote those bytes the same object returns %q (%s)", q, mon.Trunc(s1, 80), mon.Trunc(s2, 80), c18Err(e2err))
+		}
+	}
+
 	// OpenAPI
 	var oa []byte
 	var oerr error
@@ -877,7 +897,7 @@ func init() {
 			c18Pinned = true // a replay judges the recorded case without carve-outs
 			c18Text(r, string(c.Text), c.Probes, c.Witness)
 		},
-		Rule:               "every text over the 23-symbol alphabet {/ \\ a . * + ? ( ) [ ] ^ $ | { } 1 , - quote é 0x7f TAB} starting with '/' up to 5 (quick) / 7 (thorough) symbols (texts with another first byte: up to 3 symbols), a fixed list of edge texts (empty, one byte, non-UTF-8, backslash parities, counted-repetition limit), and 30k / 1M generated well-formed patterns (literals, escapes incl. \\/ and \\\\, dot, positive/negated classes with ranges and \\d\\w\\s, Perl classes, plain/non-capturing/named groups to depth 3, alternation, * + ? {n} {n,} {n,m} with n,m <= 5 and lazy forms, ^ at the start, $ at the end, optional trailing text; one in ten damaged by a byte mutation). Per text: regex.New(text).Check() vs (starts with '/', first later '/' behind an even number of backslashes, text between compiles with Go regexp); a rejected text must be rejected by Len, Pattern, GetAST, Example and a second Check too (same object after the failed Check, and fresh objects with Len first); rejections must be a kit.JSchemaError whose index lies in the text, with a line number and a message that can be printed; for accepted texts Len() = closing index + 1, GetAST().Value = /pattern/, OpenAPI pattern = pattern, Example() (fresh object) matched by the pattern, and with the schema registered as @r the schema \"v\" // {type:\"@r\"} is accepted iff regexp matches v, for up to 5 probe strings (generated patterns: two matches by construction, two near-misses, one random string; enumerated texts: the library's own example plus matching and non-matching strings from a 30-string pool, 5 probes up to 6 bytes of text, 3 beyond). Enumerated texts with more than one symbol behind the closing delimiter get the example and user-type clauses on every eighth text (hash of the text) with one probe. distinct_nontrivial = distinct texts with an opening and a closing delimiter (hashed, capped at 500k per shard).",
+		Rule:               "every text over the 23-symbol alphabet {/ \\ a . * + ? ( ) [ ] ^ $ | { } 1 , - quote é 0x7f TAB} starting with '/' up to 5 (quick) / 7 (thorough) symbols (texts with another first byte: up to 3 symbols), a fixed list of edge texts (empty, one byte, non-UTF-8, backslash parities, counted-repetition limit), and 30k / 1M generated well-formed patterns (literals, escapes incl. \\/ and \\\\, dot, positive/negated classes with ranges and \\d\\w\\s, Perl classes, plain/non-capturing/named groups to depth 3, alternation, * + ? {n} {n,} {n,m} with n,m <= 5 and lazy forms, ^ at the start, $ at the end, optional trailing text; one in ten damaged by a byte mutation). Per text: regex.New(text).Check() vs (starts with '/', first later '/' behind an even number of backslashes, text between compiles with Go regexp); a rejected text must be rejected by Len, Pattern, GetAST, Example and a second Check too (same object after the failed Check, and fresh objects with Len first); rejections must be a kit.JSchemaError whose index lies in the text, with a line number and a message that can be printed; for accepted texts Len() = closing index + 1, GetAST().Value = /pattern/, OpenAPI pattern = pattern, Example() (fresh object) matched by the pattern and unchanged when asked again after the caller overwrote the returned bytes, and with the schema registered as @r the schema \"v\" // {type:\"@r\"} is accepted iff regexp matches v, for up to 5 probe strings (generated patterns: two matches by construction, two near-misses, one random string; enumerated texts: the library's own example plus matching and non-matching strings from a 30-string pool, 5 probes up to 6 bytes of text, 3 beyond). Enumerated texts with more than one symbol behind the closing delimiter get the example and user-type clauses on every eighth text (hash of the text) with one probe. distinct_nontrivial = distinct texts with an opening and a closing delimiter (hashed, capped at 500k per shard).",
 		MinNontrivialQuick: 50000, MinNontrivialThorough: 2000000,
 		Assumptions: []string{"Go regexp (Compile, MatchString) is the reference for pattern validity and matching; the library uses the same engine, the independent part is the delimiter scan and the cross-API comparison",
 			"the closing delimiter is the first unescaped '/' behind the opening one; a text accepted only under a later unescaped '/' would be counted as not judged (never observed)",
